@@ -1,3 +1,21 @@
 import ClipVerif.Model.Lists
+import ClipVerif.Proofs.C03
 namespace Proofs.C08
+open Gen Model
+
+theorem minkowski_count (pattern path : Array Point64) (isSum isClosed : Bool) (r : List (List Point64))
+    (h : minkowski pattern path isSum isClosed = .ok r) :
+    r.length = (path.size - (if isClosed then 0 else 1)) * pattern.size := by
+  obtain ⟨r', h', hc, _⟩ := Proofs.C03.minkowski_spec pattern path isSum isClosed
+  rw [h] at h'
+  cases h'
+  exact hc
+
+theorem minkowski_quads (pattern path : Array Point64) (isSum isClosed : Bool) (r : List (List Point64))
+    (h : minkowski pattern path isSum isClosed = .ok r) : ∀ q ∈ r, q.length = 4 := by
+  obtain ⟨r', h', _, hq⟩ := Proofs.C03.minkowski_spec pattern path isSum isClosed
+  rw [h] at h'
+  cases h'
+  exact hq
+
 end Proofs.C08
